@@ -312,7 +312,7 @@ def compare(before, after, info, obs, odd):
     g = {n: b for n, b in obs.items() if b}
     w = {n: b for n, b in after.files.items() if b}
     if g != w:
-        if not before.files and g and w and min(g) != min(w) and [g[k] for k in sorted(g)] == [w[k] for k in sorted(w)]:
+        if not before.files and obs and min(obs) != after.base and [g[k] for k in sorted(g)] == [w[k] for k in sorted(w)]:
             return "naming/first-file-not-blk00000", f"first file number {min(g)}"
         for n in sorted(set(g) | set(w)):
             a, b = g.get(n, b""), w.get(n, b"")
